@@ -183,4 +183,45 @@ mod verif_udp {
         kani::cover!(true, "end");
         std::mem::forget(r);
     }
+
+    fn try_lock_contended<T>(_m: &std::sync::Mutex<T>) -> std::sync::TryLockResult<std::sync::MutexGuard<'_, T>> {
+        Err(std::sync::TryLockError::WouldBlock)
+    }
+
+    //@H name=c12_udp_emit_flush props=C06,C12,C13,C14,C20 bound="capacity 8, one 2-byte metric" fn=BufferedUdpMetricSink::emit,flush :: buffered Udp sink: emit == one write of the whole metric into the line writer (nothing sent); flush == ONE datagram metric+newline to the configured destination; flushing again sends nothing
+    #[kani::proof]
+    #[kani::unwind(40)]
+    #[kani::stub(std::net::UdpSocket::send_to, send_to_stub)]
+    fn c12_udp_emit_flush() {
+        let s = ManuallyDrop::new(BufferedUdpMetricSink::with_capacity(any_addr(), fake_socket(), 8).ok().unwrap());
+        OUTCOME.store(4, Ordering::SeqCst); // the socket accepts: Ok(3)
+        let r = s.emit("ab");
+        assert!(matches!(r, Ok(2)), "[C06,C12] emit returns the metric's byte length");
+        assert!(CALLS.load(Ordering::SeqCst) == 0, "[C19] a metric that fits is buffered, nothing is sent");
+        assert!(s.flush().is_ok(), "[C06] flush succeeds when the socket accepts");
+        assert!(CALLS.load(Ordering::SeqCst) == 1 && LEN.load(Ordering::SeqCst) == 3, "[C06,C12,C13] flush sends what remains as ONE datagram: the metric followed by a single newline");
+        assert!(ADDR_OK.load(Ordering::SeqCst) == 1, "[C13] to the destination given at construction");
+        assert!(snapshot(&s.stats) == [3, 1, 0, 0], "[C14] the buffered sink's statistics count the datagram the socket accepted");
+        assert!(s.flush().is_ok() && CALLS.load(Ordering::SeqCst) == 1, "[C06] flushing again sends nothing");
+        kani::cover!(true, "end");
+        std::mem::forget(r);
+    }
+
+    //@H name=c12_udp_flush_contended props=C06,C12,C20 bound="capacity 8, 1 buffered metric" fn=BufferedUdpMetricSink::flush :: whatever other threads do with the lock, flush never reports success while the metrics acknowledged before it are still buffered (a non-blocking lock attempt is modelled as contended)
+    #[kani::proof]
+    #[kani::unwind(40)]
+    #[kani::stub(std::net::UdpSocket::send_to, send_to_stub)]
+    #[kani::stub(std::sync::Mutex::try_lock, try_lock_contended)]
+    fn c12_udp_flush_contended() {
+        let s = ManuallyDrop::new(BufferedUdpMetricSink::with_capacity(any_addr(), fake_socket(), 8).ok().unwrap());
+        OUTCOME.store(4, Ordering::SeqCst);
+        let r = s.emit("ab");
+        if r.is_ok() {
+            let f = s.flush();
+            assert!(f.is_err() || CALLS.load(Ordering::SeqCst) == 1, "[C06,C12] flush returned Ok => every metric acknowledged before it has been handed to the socket, even under lock contention");
+            std::mem::forget(f);
+        }
+        kani::cover!(r.is_ok(), "emit accepted");
+        std::mem::forget(r);
+    }
 }
